@@ -28,7 +28,7 @@ ASSUMPTIONS = [
 REQUIRED_COUNTERS = {f"nomod_{k}": 6 for k in G.SAMPLER_KINDS}
 REQUIRED_COUNTERS.update({"second_history_same_length": 40, "stub_calls": 100, "real_surrogate_calls": 30, "bestbatch_proposals": 200, "extreme_histories": 50, "boundary_ties": 20})
 SHARDS = {"quick": 16, "thorough": 16}
-SHARD_WATCHDOG = {"quick": 900, "thorough": 5400}
+SHARD_WATCHDOG = {"quick": 1500, "thorough": 10800}
 
 
 def gen_cases(tier, seed):
@@ -110,7 +110,7 @@ def run_case(desc, ctx):
             p0, l0 = digest(pts), digest(losses)
             w = {"sampler": smp, "space": sd, "losses": losses, "extreme": extreme}
             try:
-                with quiet(), G.time_limit(90):
+                with quiet(), G.time_limit(G.LIMIT):
                     s = G.build_sampler(smp)
                     s.sample(space, pts, losses)
                     if sk in ("ParticleSwarm", "CORS") or rng.random() < 0.3:
@@ -183,7 +183,7 @@ def run_case(desc, ctx):
             try:
                 with Wrap(cls, "fit", post=post_fit), Wrap(cls, "predict", post=post_predict), \
                         Wrap(MLSurrogateSampler, "sample_candidates", post=post_pool), Wrap(MLSurrogateSampler, "sample_batch", post=post_batch), \
-                        quiet(), G.time_limit(90):
+                        quiet(), G.time_limit(G.LIMIT):
                     final = sampler.sample(space, pts, losses)
                     n_first = len(seen["batches"])
                     # the same object again, on a different history of the same length
